@@ -1,7 +1,7 @@
 (* C13 — verification and staleness checks flag exactly the unhealthy storages. *)
 From Coq Require Import List Arith NArith Lia Bool.
 Import ListNotations.
-Require Import Verify VerifyRuns VerifyKill Alarm Duration F3.
+Require Import Verify VerifyRuns VerifyKill Alarm Duration F3 NameClass.
 
 (* First claim: the verifier (listing + per-group sequential inspection, transcribed from BackupGroup::list/read/inspect
    and Backup::inspect) accepts exactly the storages satisfying the declarative Healthy predicate: no unexpected entry
@@ -72,7 +72,31 @@ Check C13_duration_value : forall c ds u k n,
   lead c = true -> forallb Codec.is_digit ds = true -> unit_of u = Some k -> Codec.parse_N (c :: ds) = Some n -> (n * k < U64)%N ->
   parse_duration (c :: ds ++ [u]) = Dur (n * k).
 
+(* The names behind the classified listing ("names are classified" in Verify): what counts as a backup, a temporary, a hidden or an
+   unexpected entry of a group, as a function of the entry's name (bytes) and kind - storage/traits.rs patterns + BackupGroup::read. *)
+Theorem C13_backup_name_exact : forall d s n, classify_entry d s = EBackup n ->
+  d = true /\ n = s /\ length s = 19%nat /\ starts_with_dot s = false.
+Proof. exact backup_name_exact. Qed.
+Check C13_backup_name_exact : forall d s n, classify_entry d s = EBackup n ->
+  d = true /\ n = s /\ length s = 19%nat /\ starts_with_dot s = false.
+Theorem C13_extended_backup_name_is_unexpected : forall d s t n, t <> [] -> classify_entry d s = EBackup n -> classify_entry d (s ++ t) = EUnexpected.
+Proof. exact extended_backup_name_is_unexpected. Qed.
+Check C13_extended_backup_name_is_unexpected : forall d s t n, t <> [] -> classify_entry d s = EBackup n -> classify_entry d (s ++ t) = EUnexpected.
+Theorem C13_temporary_iff : forall d s n, classify_entry d s = ETemporary n <-> (d = true /\ s = DOT :: n /\ shape_second n = true).
+Proof. exact temporary_iff. Qed.
+Check C13_temporary_iff : forall d s n, classify_entry d s = ETemporary n <-> (d = true /\ s = DOT :: n /\ shape_second n = true).
+(* finding F13: a name holding any byte >= 128 (every byte of a UTF-8 multi-byte sequence, so every non-ASCII digit) is neither a group nor a backup *)
+Theorem C13_non_ascii_is_foreign : forall d s c, In c s -> (128 <= c)%N ->
+  classify_root d s <> NRGroup /\ (forall n, classify_entry d s <> EBackup n).
+Proof. exact non_ascii_is_foreign. Qed.
+Check C13_non_ascii_is_foreign : forall d s c, In c s -> (128 <= c)%N ->
+  classify_root d s <> NRGroup /\ (forall n, classify_entry d s <> EBackup n).
+
 Print Assumptions C13_verify_iff.
 Print Assumptions C13_publish_healthy.
 Print Assumptions C13_kill_keeps_healthy.
 Print Assumptions C13_alarm_iff.
+Print Assumptions C13_backup_name_exact.
+Print Assumptions C13_temporary_iff.
+Print Assumptions C13_non_ascii_is_foreign.
+Print Assumptions C13_extended_backup_name_is_unexpected.
